@@ -466,6 +466,13 @@ var globalAssumptions = []string{
 }
 
 var propAssumptions = map[string][]string{
+	"C10": {
+		"scope: Registry.add/Remove/get/getByID/GetPID, Context.GetPID, Engine.SpawnProc; Engine.Spawn/newProcess and the callers of Remove are outside this check",
+		"sync.RWMutex: mutual exclusion and a total order of critical sections; the protected map is havoced at every Lock/RLock and at every call of a locked Registry method, so nothing is assumed about other threads beyond the lock invariant",
+		"abstract contract of Processer.PID(): a stable function of the processer value (pidof), non-nil",
+		"abstract contract of Processer.Start(): returns normally; leaves engine-private fields (Registry, process, Context, Inbox, Engine, PID objects) as they are except through calls this proof does not see",
+		"trusted contract of Engine.BroadcastEvent: publishes exactly its argument (one Broadcast entry in the effect log)",
+	},
 	"C16": {
 		"scope: only streamReader.Receive is under contract; the generated decoder (Envelope/Message.UnmarshalVT), the protobuf library behind Deserialize, drpc's handling of the returned error and Engine.SendLocal are outside the proof",
 		"abstract contract assumed of DRPCRemote_ReceiveStream.Recv: on success the envelope and the elements of Messages are non-nil (nothing is assumed about indices or table lengths)",
